@@ -2832,6 +2832,7 @@ class TrackFragmentRunBox(FullBox):
 @fourcc('tenc')
 class TrackEncryptionBox(FullBox):
     OBJECT_FIELDS = {
+        "constant_iv": HexBinary,
         "default_kid": HexBinary,
     }
     OBJECT_FIELDS.update(FullBox.OBJECT_FIELDS)
@@ -2843,6 +2844,11 @@ class TrackEncryptionBox(FullBox):
         r.read('3I', "is_encrypted")
         r.read('B', "iv_size")
         r.read(16, "default_kid")
+        end = rv["position"] + rv["size"]
+        if (rv["is_encrypted"] & 0xFF) == 1 and rv["iv_size"] == 0 and src.tell() < end:
+            # a constant IV is used for every sample
+            constant_iv_size = r.get('B', 'constant_iv_size')
+            r.read(constant_iv_size, 'constant_iv')
         return rv
 
     def encode_box_fields(self, dest):
@@ -2850,6 +2856,9 @@ class TrackEncryptionBox(FullBox):
         w.write('3I', "is_encrypted")
         w.write('B', "iv_size")
         w.write(16, "default_kid")
+        if 'constant_iv' in self._fields and self.constant_iv is not None:
+            w.write('B', 'constant_iv_size', len(self.constant_iv))
+            w.write(None, 'constant_iv')
 
 
 @fourcc('pssh')
